@@ -398,6 +398,41 @@ impl Socks5UdpCodec {
     }
 }
 
+//@@ octo-squirrel/src/codec/aead.rs:24-32  enum CipherMethod  sha=9a559024666aa37a
+pub enum CipherMethod {
+    Aes128Gcm(Aes128Gcm),
+    Aes256Gcm(Aes256Gcm),
+    ChaCha8Poly1305(ChaCha8Poly1305),
+    ChaCha20Poly1305(ChaCha20Poly1305),
+    XChaCha8Poly1305(XChaCha8Poly1305),
+    XChaCha20Poly1305(XChaCha20Poly1305),
+}
+
+//@@ octo-squirrel/src/codec/aead.rs:60-122  impl CipherMethod {fn new}  sha=30ff04c67b7ac7c5
+impl CipherMethod {
+    fn new(kind: CipherKind, key: &[u8]) -> Self {
+        match kind {
+            CipherKind::Aes128Gcm | CipherKind::Aead2022Blake3Aes128Gcm => {
+                let key = &key[..16];
+                Self::Aes128Gcm(Aes128Gcm::new(Key::<Aes128Gcm>::from_slice(key)))
+            }
+            CipherKind::Aes256Gcm | CipherKind::Aead2022Blake3Aes256Gcm => {
+                let key = &key[..32];
+                Self::Aes256Gcm(Aes256Gcm::new(Key::<Aes256Gcm>::from_slice(key)))
+            }
+            CipherKind::ChaCha20Poly1305 | CipherKind::Aead2022Blake3ChaCha20Poly1305 => {
+                let key = &key[..32];
+                Self::ChaCha20Poly1305(ChaCha20Poly1305::new(Key::<ChaCha20Poly1305>::from_slice(key)))
+            }
+            CipherKind::Aead2022Blake3ChaCha8Poly1305 => {
+                let key = &key[..32];
+                Self::ChaCha8Poly1305(ChaCha8Poly1305::new(Key::<ChaCha8Poly1305>::from_slice(key)))
+            }
+            CipherKind::Unknown => verif_panic(),
+        }
+    }
+}
+
 //@@ octo-squirrel/src/protocol/vmess/header.rs:6-11  enum AddressType  sha=722a87f6fd982440
 #[derive(PartialEq, Eq, Clone, Copy)]
 pub enum vh__AddressType {
